@@ -569,7 +569,9 @@ def run(fb, rep, tier, cfg):
         "modulo the reasoned table tables/trace_exempt.json. E1b: the collector's Roots object is a sibling of Thread::trace "
         "(same Thread fields, stack via Roots.stack), children are locked+marked before the sweep callback and swept after it, "
         "who-may-call Gc::collect. E1c: the value being allocated is part of the root set of the collection its allocation "
-        "triggers. E4 (see C13) covers stores into mutable cells. Decides root *existence*, not that timing never matters.")
+        "triggers. E4 (see C13) covers stores into mutable cells and (E4c/E4d) that the cloner's helpers and every Userdata::deep_clone "
+        "override copy what they hold through the cloner — a copy that still points into the source heap is freed by the source's next "
+        "collection while reachable from the copy. Decides root *existence*, not that timing never matters.")
     rep.assumptions += [
         "derive(Trace) output is analysed post-expansion like any other impl",
         "a field counts as traced when it flows (through borrows, lock/unwrap/deref calls) into any call that also receives &mut Gc",
@@ -582,3 +584,7 @@ def run(fb, rep, tier, cfg):
     e1e(fb, rep)
     from . import e4
     e4.cells(fb, rep)
+    # a copy that keeps pointing into the source heap is freed by the source's next collection while still reachable
+    e4.userdata_clones(fb, rep)
+    e4.cloner_heap_pairing(fb, rep)
+    e4.cloner_helpers(fb, rep)
